@@ -50,7 +50,7 @@ def is_nontrivial(ops):
 
 
 FNS = ["field_call", "srf_call", "krige_call", "condsrf_call", "transform", "set_condition",
-       "extdrift", "mesh_call", "krige_fit",
+       "extdrift", "mesh_call", "krige_fit", "model_ctor",
        "vario_estimate", "vario_axis", "standard_bins", "fit_variogram", "normalizer",
        "mean_norm_trend", "array_transform", "model_funcs"]
 TRANSFORMS = ["binary", "discrete", "boxcox", "zinnharvey", "normal_force_moments",
@@ -455,6 +455,34 @@ class Machine:
         else:
             kr.set_condition(cond_err=self.alloc("cond_err", self._vals(rs, (n,), 0.0, 0.1),
                                                  lay, site))
+
+    def _c_model_ctor(self, op, rs, site):
+        """Covariance models constructed from / assigned caller-owned parameter arrays
+        (anis, angles, len_scale lists) in every flavour that rewrites some of them."""
+        lay = op["layout"]
+        flavor = rs.choice(["plain", "temporal", "latlon", "latlon_temporal"])
+        dim = rs.choice([2, 3, 4]) if not flavor.startswith("latlon") else (
+            3 + int(flavor.endswith("temporal")))
+        if flavor == "temporal":
+            dim = rs.choice([3, 4])
+        n_ang = dim * (dim - 1) // 2
+        anis = self.alloc("anis", self._vals(rs, (dim - 1,), 0.3, 2.0), lay, site)
+        angles = self.alloc("angles", self._vals(rs, (n_ang,), 0.1, 2.0), lay, site)
+        lens = self.alloc("len_scale", self._vals(rs, (dim,), 0.5, 3.0), lay, site)
+        kw = {"latlon": flavor.startswith("latlon"), "temporal": flavor.endswith("temporal")}
+        cls = rs.choice([gs.Gaussian, gs.Exponential, gs.Stable])
+        how = rs.choice(["ctor_anis", "ctor_lens", "setters"])
+        if how == "ctor_anis":
+            cls(dim=dim, anis=anis, angles=angles, **kw)
+        elif how == "ctor_lens":
+            cls(dim=dim, len_scale=lens, angles=angles, **kw)
+        else:
+            m = cls(dim=dim, **kw)
+            m.anis = anis
+            m.angles = angles
+            m.len_scale = lens
+            m.dim = max(2 + int(kw["temporal"]), dim - 1) if not kw["latlon"] else dim
+        self.ctx.probe("model_ctor." + flavor)
 
     def _c_extdrift(self, op, rs, site):
         """External drift kriging: drift arrays at the conditions and at the targets."""
